@@ -94,3 +94,20 @@ Theorem C09_revall_scan_skeleton_is_code : forall d p k l_init,
        (G.gen_revall_entry_hour (k_dep k) (k_arr k) (k_minAcc k) (k_minEgr k) (q_minw p) (k_maxAcc k) (k_maxEgr k)) l_init d p k).
 Proof. exact revall_scan_skel_tie. Qed.
 Print Assumptions C09_revall_scan_skeleton_is_code.
+
+(* tie to the source, stage 3d: the per-stop loop of the all-nodes result builder (reverseJourneyStepAllNodes, reverse_journey.cpp) - the listing condition,
+   the backwards walk over the labels, the time of the stop, the max-travel-time filter, the node that is pushed - is read
+   from the source AS IT IS NOW by tools/gen_loops.py (gen/AllNodes.v) and executed by the interpreter of AllNodes.v; the
+   model computes the same list of nodes, stop by stop and for the whole list of stops *)
+Require Import TrV.AllNodes.
+From TrV Require Import Proofs.AllNodesTie.
+Theorem C09_allnodes_stop_is_code : forall d p k steps labels fuel n m,
+  omap nb_nodes (run_stop GN.gen_revall_stop {| ne_d := d; ne_p := p; ne_k := k; ne_steps := steps; ne_labels := labels; ne_node := n |} fuel m)
+  = rev_stop d p k steps labels fuel n (nb_nodes m).
+Proof. exact rev_stop_tie. Qed.
+Print Assumptions C09_allnodes_stop_is_code.
+Theorem C09_allnodes_builder_is_code : forall d p k st m0, nb_nodes m0 = nil ->
+  omap nb_nodes (run_stops GN.gen_revall_stop d p k (r_steps st) (r_acc st) (REBUILD_FUEL d) (d_nodes d) m0) =
+  rev_allnodes_loop d p k st (d_nodes d).
+Proof. exact rev_allnodes_builder_tie. Qed.
+Print Assumptions C09_allnodes_builder_is_code.
